@@ -70,7 +70,15 @@ fn main() -> Result<(), String> {
 
     // TODO: should introduce a config object to gather options on the CLI etc.
     let max_drift_ppb = match args.max_drift_rate {
-        Some(rate) => rate * 1000,
+        // ppm to ppb. Refuse a rate that does not fit the u32 published to clients rather than
+        // letting the multiplication wrap to a smaller value.
+        Some(rate) => rate.checked_mul(1000).ok_or_else(|| {
+            format!(
+                "max drift rate of {} ppm is too large, must be at most {} ppm",
+                rate,
+                u32::MAX / 1000
+            )
+        })?,
         None => {
             warn!("Using the default max drift rate of 1PPM, which is likely wrong. \
                   Update chrony configuration and clockbound to a value that matches your hardware.");
